@@ -3,12 +3,15 @@
 
   `Proofs/C08.lean` is stated for plain types (`Ty.plain`: no union). A fixed-size union (`UnionMetaType._read`; the model
   is `read` / `readMembers` in `CstructModel/Read.lean`, `Union.parse` in `CstructModel/Union.lean`) fetches its extent
-  with ONE UNCHECKED `stream.read(size)` and parses every member from that private buffer. Dynamically sized unions are
+  with ONE UNCHECKED `stream.read(size)`, parses every member from that private buffer and leaves the stream at
+  `start + size` (also when the read came back short). Dynamically sized unions are
   not modelled (`read` returns `NotImplementedError` for them), so nothing is claimed about them.
 
   What is true, and proved here:
   * `c08_union_window`    — the result of reading ANY fixed-size union (value or error) is a function of the `size` bytes
                             at `pos` alone: two inputs that agree there give the same result, for every member list.
+  * `c08_union_end` / `c08_union_cut` — EVERY fixed-size union that returns a value ends at `pos + size`, and returns the same
+                            value from every cut of the input at or after that position (no covering member needed).
   * `c08_union_complete`  — if the input holds the `size` bytes, the result does not change when the input is cut after
                             them or extended (every member list).
   * `c08_union_short`     — for a COVERED union (`Fields.tightUnion`: some member is rigid and as large as the union) fewer
@@ -23,14 +26,15 @@
                             `Core.read_window_bits` / `Core.read_end_le_bits` for `Ty.plainU` (same side conditions): a value
                             depends on nothing after its end position, also when unions occur anywhere inside.
   * `c08_union_members`   — for a union that is NOT covered, with members in `plainU`: a value returned from a shortened
-                            input has exactly the member values of the complete input, and its raw buffer is a prefix of
-                            the complete one. Nothing is invented, but the VALUE IS RETURNED.
+                            input has exactly the member values and the end position of the complete input, and its raw
+                            buffer is a prefix of the complete one. Nothing is invented, but the VALUE IS RETURNED.
 
   What is FALSE (model and library alike; see "Counter-examples" at the end): "fewer than `size` bytes ⇒ EOFError" for an
   arbitrary member list. An aligned union with tail padding (`union { uint8 a[5]; uint32 b; }`, size 8) parses 5, 6 or 7
   bytes into a value; so does a union whose only largest member is an aligned structure with tail padding. The members
-  are those of the complete input, but the end position (and the raw buffer kept by the object) differ, so
-  `c08_shortened` itself does not extend to such unions.
+  and the end position are those of the complete input (missing tail padding at the end of the input is accepted as for
+  aligned structures), but the raw buffer kept by the object is shorter, so `c08_shortened` (equality of the model values,
+  which include the buffer) does not extend to such unions; `c08_union_members` is what holds.
 -/
 import Proofs.C08
 import Proofs.Spec.C08Union
@@ -50,6 +54,28 @@ theorem c08_union_window (cfg : Cfg) (al : Bool) (fs : Fields) (sz : Nat) (hsz :
   rw [Lemmas.read_union, Lemmas.read_union, hsz]
   simp only [hwin]
 
+/-- **A fixed-size union ends exactly `size` bytes after its start** (every member list, covered or not, also when the
+    `read(size)` came back short: the library seeks to `start + size`). -/
+theorem c08_union_end (cfg : Cfg) (al : Bool) (fs : Fields) (sz : Nat) (ctx : Ctx) (d : Bytes) (pos : Nat) (v : Val) (p : Nat)
+    (hr : read cfg (.union al fs) ctx d pos = .ok (v, p)) (hsz : (Ty.union al fs).size cfg = some sz) : p = pos + sz := by
+  rw [Lemmas.read_union, hsz] at hr
+  simp only [] at hr
+  obtain ⟨vs, _, h4⟩ := Core.Lemmas.bind_ok hr
+  cases h4
+  rfl
+
+/-- **Cutting the input at or after the end position of a union changes nothing** (every member list): the truncation half
+    of the window theorem needs no covering member. -/
+theorem c08_union_cut (cfg : Cfg) (al : Bool) (fs : Fields) (ctx : Ctx) (d : Bytes) (pos : Nat) (v : Val) (p : Nat)
+    (hr : read cfg (.union al fs) ctx d pos = .ok (v, p)) (q : Nat) (hq : p ≤ q) :
+    read cfg (.union al fs) ctx (d.take q) pos = .ok (v, p) := by
+  cases hsz : (Ty.union al fs).size cfg with
+  | none => rw [Lemmas.read_union, hsz] at hr; cases hr
+  | some sz =>
+    have hp := c08_union_end cfg al fs sz ctx d pos v p hr hsz
+    rw [← hr]
+    exact c08_union_window cfg al fs sz hsz ctx ctx _ _ pos (Core.Lemmas.sread_take d pos sz q (by omega))
+
 /-- **When the `size` bytes are there, nothing else matters**: the result on `d1` is the result on every input that starts
     with the first `pos + size` bytes of `d1` — cutting the input right after the union or extending it changes nothing
     (every member list), and a value ends at `pos + size`. -/
@@ -68,7 +94,7 @@ theorem c08_union_complete (cfg : Cfg) (al : Bool) (fs : Fields) (sz : Nat) (hsz
   simp only [] at hr
   obtain ⟨vs, _, h4⟩ := Core.Lemmas.bind_ok hr
   cases h4
-  rw [hl]
+  rfl
 
 /-! ### Covered unions -/
 
@@ -126,7 +152,7 @@ theorem c08_union_prefix (cfg : Cfg) (al : Bool) (fs : Fields) (ht : Fields.tigh
     obtain ⟨vs, h1, h4⟩ := Core.Lemmas.bind_ok hr
     have hl := Lemmas.tight_full cfg al fs ht sz hsz [] _ vs h1
     have hl2 := Lemmas.sread_length d1 pos sz
-    have hp : p = pos + sz := by cases h4; omega
+    have hp : p = pos + sz := by cases h4; rfl
     subst hp
     refine ⟨?_, by rw [Nat.add_sub_cancel_left], Nat.le_add_right _ _⟩
     by_cases h0 : sz = 0
@@ -215,13 +241,13 @@ theorem c08_read_end_le_u (cfg : Cfg) (al : Bool) (g : Scalar → Nat) (ty : Ty)
 
 /-- **A union that is not covered still invents nothing**: if it returns a value on an input `d1`, then on every extension
     `d2` of `d1` it returns a value with exactly the same members, whose raw buffer extends the one seen on `d1`
-    (members in `plainU`, e.g. plain types). The end position is `pos` + the length of the buffer in both cases, so it
-    differs when the buffer does: this is the weaker statement that remains true for the counter-examples below. -/
+    (members in `plainU`, e.g. plain types), and the same end position (`pos + size`, `c08_union_end`). This is the
+    statement that remains true for the counter-examples below. -/
 theorem c08_union_members (cfg : Cfg) (al : Bool) (fs : Fields) (hm : Fields.plainU cfg fs = true) (ctx : Ctx)
     (d1 d2 : Bytes) (hpre : d1 <+: d2) (pos : Nat) (v : Val) (p : Nat)
     (hr : read cfg (.union al fs) ctx d1 pos = .ok (v, p)) :
-    ∃ b1 b2 vs, v = .union b1 vs ∧ p = pos + b1.length ∧ b1 <+: b2 ∧
-      read cfg (.union al fs) ctx d2 pos = .ok (.union b2 vs, pos + b2.length) := by
+    ∃ b1 b2 vs, v = .union b1 vs ∧ b1 <+: b2 ∧
+      read cfg (.union al fs) ctx d2 pos = .ok (.union b2 vs, p) := by
   obtain ⟨t, rfl⟩ := hpre
   rw [Lemmas.read_union] at hr ⊢
   cases hsz : (Ty.union al fs).size cfg with
@@ -232,7 +258,7 @@ theorem c08_union_members (cfg : Cfg) (al : Bool) (fs : Fields) (hm : Fields.pla
     obtain ⟨vs, h1, h4⟩ := Core.Lemmas.bind_ok hr
     cases h4
     obtain ⟨u, hu⟩ := Lemmas.sread_prefix d1 t pos sz
-    refine ⟨_, sread (d1 ++ t) pos sz, vs, rfl, rfl, ⟨u, hu⟩, ?_⟩
+    refine ⟨_, sread (d1 ++ t) pos sz, vs, rfl, ⟨u, hu⟩, ?_⟩
     rw [← hu, Lemmas.extU_members cfg _ u fs hm [] vs h1]
     rfl
 
@@ -295,7 +321,7 @@ example (ctx : Ctx) (d post : Bytes) (v : Val) (p : Nat) (h : read cfgL tyT ctx 
 
 /-! ### Counter-examples: unions that are not covered (model = library, checked by the differential run of this check)
   `A`: aligned `union { uint8 a[5]; uint32 b; }`: size 8 = 5 rounded up to the alignment 4. Five, six or seven bytes parse
-  to a value (members as on the complete input; end position = number of bytes there were).
+  to a value (members and end position as on the complete input, raw buffer = the bytes there were).
   `V`: aligned `union { struct { uint32 a; uint8 b; } s; uint16 c; }`: the structure has size 8 but consumes 5 bytes and
   skips its tail padding with a seek. Real library, `cs.load(..., align=True)`: `cs.A(bytes(range(1, 6)))` returns
   `<A a=[1, 2, 3, 4, 5] b=0x4030201>`, `cs.A(bytes(4))` raises EOFError. -/
@@ -305,11 +331,14 @@ def tyV : Ty := .union true vFs
 example : tyA.size cfgL = some 8 ∧ Fields.tightUnion cfgL true aFs = false ∧ Fields.plainU cfgL aFs = true := by decide +kernel
 example : tyV.size cfgL = some 8 ∧ Fields.tightUnion cfgL true vFs = false ∧ Fields.plainU cfgL vFs = true := by decide +kernel
 def endOf (r : Except Err (Val × Nat)) : Except Err Nat := r.map (·.2)
+def bufOf (r : Except Err (Val × Nat)) : Option Bytes := match r with | .ok (.union b _, _) => some b | _ => none
 #guard endOf (read cfgL tyA [] [1, 2, 3, 4] 0) = .error .eof
-#guard endOf (read cfgL tyA [] [1, 2, 3, 4, 5] 0) = .ok 5            -- a value from 5 < 8 bytes
-#guard endOf (read cfgL tyA [] [1, 2, 3, 4, 5, 6, 7] 0) = .ok 7
+#guard endOf (read cfgL tyA [] [1, 2, 3, 4, 5] 0) = .ok 8            -- a value from 5 < 8 bytes
+#guard bufOf (read cfgL tyA [] [1, 2, 3, 4, 5] 0) = some [1, 2, 3, 4, 5]
+#guard endOf (read cfgL tyA [] [1, 2, 3, 4, 5, 6, 7] 0) = .ok 8
 #guard endOf (read cfgL tyA [] [1, 2, 3, 4, 5, 6, 7, 8, 9] 0) = .ok 8
-#guard endOf (read cfgL tyV [] [1, 2, 3, 4, 5] 0) = .ok 5
+#guard bufOf (read cfgL tyA [] [1, 2, 3, 4, 5, 6, 7, 8, 9] 0) = some [1, 2, 3, 4, 5, 6, 7, 8]
+#guard endOf (read cfgL tyV [] [1, 2, 3, 4, 5] 0) = .ok 8
 #guard endOf (read cfgL tyV [] [1, 2, 3, 4, 5, 6, 7, 8] 0) = .ok 8
 
 end UEx
